@@ -32,6 +32,29 @@ DESC = {
  "C31": ("scalar tail of set_cells_with_result keeps the old extent for ArrayKind::Dynamic", "spilled formula that stops returning an array, user content in the freed cells, then an edit"),
  "C33": ("displace_cf_ranges no longer switches the parser to the default locale", "locale de, CF rule formula with an argument separator or decimal, structural edit"),
 }
+
+DESC.update({
+ "C11": ("formatter lexer consume_color uses split_at(5) after a byte-length test instead of starts_with(\"Color\")", "bracket section of >= 5 bytes with a multi-byte character straddling byte 5, e.g. [Красный]0.00"),
+ "C25": ("decode_xlsx_escapes tests the closing `_` after slicing s[i+2..i+6]", "shared string with `_x` followed by a multi-byte character straddling byte offset +6"),
+ "C27": ("delete_columns Case A guard `column_end < min` becomes `<=`", "delete >= 2 columns ending exactly at the first column of a descriptor, another descriptor just left of the block"),
+ "C30": ("Styles::get_num_fmt_index compares format codes with eq_ignore_ascii_case", "two custom number formats that differ only in letter case"),
+ "C32": ("same reordering as C10's first seed (rename_sheet_by_index restores locale/language early)", "locale de, LAMBDA defined name referencing the renamed sheet"),
+ "C34": ("cycle_endpoint row-only branch uses !absolute_row instead of !(absolute_column || absolute_row)", "row-only range with a `$` (second F4 press on 5:5)"),
+ "C01b": ("same change as C01 (Diff::MoveRows.delta = requested delta)", "hidden row in the landing zone, undo"),
+ "C02b": ("redo arm of MoveRows calls UserModel::move_rows_action (recording) instead of Model::move_rows_action", "redo of a row move with later operations still redoable / a replica"),
+ "C03b": ("apply_external_diffs concatenates consecutive batches of the same kind and applies them in one call", "two non-commuting undos flushed in one batch"),
+ "C04b": ("same change as C04 (spill reset before the grid-full error)", "spilled array, data in the last row/column, failed insert"),
+ "C05b": ("Model::evaluate clears cells/support/... once before the restart loop instead of at every restart", "two dynamic arrays where the earlier reads non-anchor cells of the later spill"),
+ "C06b": ("cast_to_bool compares |f| < EPSILON instead of f == 0.0", "tiny non-zero number as IF/NOT condition"),
+ "C08b": ("array_node_to_spill_value guard rewritten as !is_nan() || !is_infinite()", "array result whose non-anchor element overflows"),
+ "C09b": ("full_row in stringify's RangeKind arm no longer requires absolute_row1", "range A2:A$1048576 typed in row 1 (relative first row with offset 1)"),
+ "C10b": ("parse_internal_formula returns early when the *language* is English, without switching the locale", "language en with a decimal-comma locale and a LAMBDA/CF formula stored outside cells"),
+ "C12b": ("second corner of a range gets sheet_index: 0 in stringify", "range on a sheet with index >= 1, insert/delete rows or columns"),
+ "C16b": ("same change as C16 (ref_is_in_area(area.sheet, ..))", "observer on another sheet at the cut rectangle's coordinates"),
+ "C23b": ("consume_error only looks at the next 8 characters", "languages whose error names are longer (#ÜBERLAUF!, #¿NOMBRE?)"),
+ "C29b": ("split descriptor `post` takes the new hidden flag", "multi-column descriptor, set_column_hidden on a member that is not the last"),
+})
+
 def sh(cmd, cwd=None):
     return subprocess.run(cmd, shell=True, cwd=cwd, capture_output=True, text=True)
 def run_check(pid):
